@@ -7,6 +7,7 @@ import CCVerif.Lemmas.EvalExamples7n
 import CCVerif.Lemmas.EvalNestedExamples
 import CCVerif.Lemmas.EvalBlocksPatExamples
 import CCVerif.Lemmas.EvalBlocksPatFilterExamples
+import CCVerif.Lemmas.EvalCallsPatExamples
 import CCVerif.Lemmas.EvalFuelTop
 import CCVerif.Lemmas.EvalFuelNorm
 import CCVerif.Lemmas.EvalFuelLoopsTop
@@ -1069,5 +1070,54 @@ example : Typed11 Examples.env0 Examples11.i11 (.ty (.coll Examples11.ZZ)) :=
   ⟨[], _, _, 10, by intro g τ h; simp [lookup] at h, Examples11.i11s_frag, Examples11.i11_pe, Examples11.i11_normalizes⟩
 example : (evaluate 30 Examples.env0 Examples11.i11).1 = .ok (.s [.t [.e 1, .e 1], .t [.e 1, .e 2]]) :=
   Examples11.i11_value.1
+
+/-! ## stage 12: calls composed with tuple patterns / `R{}` / `I{}` / enumerated declarations / filters
+
+`Typed12`: `e` β-reduces (`Beta2`, `Lemmas/EvalCallsPat.lean`: `Beta` of stage 7 with congruence through binders over
+arbitrary declarations, `R{}`, `I{}`, enumerated declarations and filters, in the caller and in the bodies of the called
+definitions) to the call-free `e1`, `e1` goes by pattern elimination (`PE2` of stage 11) to `es` over plain variables, `es`
+is typed by stage 8 with normal form `n`, and `n` is what the normaliser returns for `e`.  What could fault in the C++ is
+what could fault on the inlined, pattern-free tree - typed by stage 8.  Not proved: that the normaliser always returns such
+an `n` (per-expression hypothesis). -/
+
+def Typed12 (env : Env) (e : Ast) (τ : ExprTy) : Prop :=
+  ∃ G e1 es n K f0, GlobalsOK env G ∧ FragF env G 6 [] [] es n τ ∧ Beta2 env.funcs K [] e e1 ∧
+    PE2 (senvOf env) [] [] e1 es ∧ normalizeTree env.funcs f0 e = some n
+
+/-- **progress_preservation_partial12**: expressions with calls AND tuple patterns / `R{}` / `I{}` / filters: evaluating
+the normalised tree never faults, a value has the type of the expression, a truth value exactly for LOGIC, errors are
+documented ones. -/
+theorem progress_preservation_partial12 : progress_preservation_statement Typed12 := by
+  intro env e τ ⟨G, e1, es, n, K, f0, hG, hf, hb, hu, hn⟩ fuel
+  rcases evaluate_callsPat hG hf hb hu hn fuel with hg | ho | ⟨eid, pos, he, hd⟩
+  · cases τ with
+    | ty ty =>
+      obtain ⟨v, hr, hw, _, _⟩ := hg
+      rw [hr]
+      exact ⟨ty, rfl, (hasTy_iff v ty).mp hw.1⟩
+    | logic =>
+      obtain ⟨b, hr, _⟩ := hg
+      rw [hr]; rfl
+  · rw [ho]; trivial
+  · rw [he]; exact hd
+
+/-- **never_stuck_partial12**: the possible outcomes on stage 12 -/
+theorem never_stuck_partial12 (env : Env) (e : Ast) (τ : ExprTy) (h : Typed12 env e τ) (fuel : Nat) :
+    (∃ v, (evaluate fuel env e).1 = .ok v) ∨ (∃ b, (evaluate fuel env e).1 = .okBool b) ∨
+    (evaluate fuel env e).1 = .outOfFuel ∨ (∃ eid pos, (evaluate fuel env e).1 = .err eid pos ∧ Documented eid) := by
+  obtain ⟨G, e1, es, n, K, f0, hG, hf, hb, hu, hn⟩ := h
+  rcases evaluate_callsPat hG hf hb hu hn fuel with hg | ho | ⟨eid, pos, he, hd⟩
+  · cases τ with
+    | ty ty => obtain ⟨v, hr, _⟩ := hg; exact Or.inl ⟨v, hr⟩
+    | logic => obtain ⟨b, hr, _⟩ := hg; exact Or.inr (Or.inl ⟨b, hr⟩)
+  · exact Or.inr (Or.inr (Or.inl ho))
+  · exact Or.inr (Or.inr (Or.inr ⟨eid, pos, he, hd⟩))
+
+/-! non-vacuity (`Lemmas/EvalCallsPatExamples.lean`), `X1 = {1,2}`, `F1 :== [s∈ℬ(X1)] D{y∈X1 | y∈s}`:
+`∀(a,b)∈X1×X1 F1[{a}]={a}` is LOGIC and evaluates to `true` -/
+example : Typed12 Examples7.env7 Examples12.c12 .logic :=
+  ⟨_, _, _, _, 2, 10, Examples7.globalsOK_7, Examples12.c12n_frag.toF (Nat.le_refl _), Examples12.c12_beta,
+    Examples12.c12_pe, Examples12.c12_normalizes⟩
+example : (evaluate 20 Examples7.env7 Examples12.c12).1 = .okBool true := Examples12.c12_value.1
 
 end CCVerif.Eval
